@@ -3,12 +3,16 @@
 //! combination, and shared by all driver binaries).
 use std::sync::Arc;
 
-use winter_air::{proof::Proof, ProofOptions};
+use winter_air::{proof::Proof, FieldExtension, ProofOptions};
 use winter_crypto::{
     hashers::{Blake3_192, Blake3_256, Rp62_248, Rp64_256, RpJive64_256, Sha3_256},
     DefaultRandomCoin, ElementHasher, RandomCoin,
 };
-use winter_math::fields::{f128, f62, f64};
+use winter_math::{
+    fields::{f128, f62, f64, CubeExtension, QuadExtension},
+    FieldElement,
+};
+use winter_utils::Serializable;
 use winter_prover::Prover;
 use winter_verifier::{verify, AcceptableOptions};
 
@@ -137,6 +141,28 @@ pub fn prove(inst: &Instance, record: bool) -> Proved {
 /// runs the verifier against the statement described by (shape, values)
 pub fn verify_proof(fd: Fd, hs: Hs, shape: &Arc<Shape>, values: &[Vec<u128>], proof: Proof, acc: &AcceptableOptions, record: bool) -> Result<Result<(), String>, PanicInfo> {
     dispatch!(fd, hs, record, verify_g, shape, values, proof, acc)
+}
+
+fn rem_commit_g<B: Fld, H: ElementHasher<BaseField = B>, R: RandomCoin<BaseField = B, Hasher = H>>(ext: FieldExtension, rem: &[u8]) -> Option<Vec<u8>> {
+    fn go<B: Fld, E: FieldElement<BaseField = B>, H: ElementHasher<BaseField = B>>(rem: &[u8]) -> Option<Vec<u8>> {
+        if rem.len() % E::ELEMENT_BYTES != 0 {
+            return None;
+        }
+        let mut els: Vec<E> = Vec::new();
+        for c in rem.chunks(E::ELEMENT_BYTES) {
+            els.push(E::read_from_bytes(c).ok()?);
+        }
+        Some(H::hash_elements(&els).to_bytes())
+    }
+    match ext {
+        FieldExtension::None => go::<B, B, H>(rem),
+        FieldExtension::Quadratic => go::<B, QuadExtension<B>, H>(rem),
+        FieldExtension::Cubic => go::<B, CubeExtension<B>, H>(rem),
+    }
+}
+/// serialized commitment (hash_elements) to a FRI remainder given as serialized elements
+pub fn remainder_commitment(fd: Fd, hs: Hs, ext: FieldExtension, rem: &[u8]) -> Option<Vec<u8>> {
+    dispatch!(fd, hs, false, rem_commit_g, ext, rem)
 }
 
 // FIELD-AGNOSTIC TRACE HELPERS
